@@ -691,6 +691,13 @@ def slices_of(tier):
     return {"scope": (6, 3), "kinds": (3, 3), "kinds4": (4, 3), "deco": (4, 3), "prefix": (5, 3)}
 
 
+def intended_of(tier):
+    """Bounds of the intended-design runs (self-consistency of the spec: Walk = Rule etc.)."""
+    if tier == "quick":
+        return {"scope": (4, 3), "kinds": (2, 3), "deco": (3, 3), "prefix": (4, 2)}
+    return slices_of(tier)
+
+
 def rows_of(res):
     return [x for x in res.printed if isinstance(x, dict) and "prog" in x]
 
@@ -699,11 +706,13 @@ def run_models(rep, tier, d):
     """All TLC runs of one tier, concurrently.  Returns the case-table rows (from the Legacy runs)."""
     from verifkit import tlc
     sl = slices_of(tier)
+    isl = intended_of(tier)
     futs = {}
     with ThreadPoolExecutor(24) as ex:
         for name, (n, depth) in sl.items():
+            ni, di = isl[name]
             futs[("intended", name)] = ex.submit(
-                tlc.run_tlc, SPEC, _cfg(d, f"i_{name}", name, n, depth), workers=4, coverage=True, deadlock=False,
+                tlc.run_tlc, SPEC, _cfg(d, f"i_{name}", name, ni, di), workers=4, coverage=True, deadlock=False,
                 heap="4g")
             futs[("rows", name)] = ex.submit(
                 tlc.run_tlc, SPEC, _cfg(d, f"r_{name}", name, n, depth, legacy=LEGACY, emit=True, invs=EMIT_INVS),
@@ -721,7 +730,7 @@ def run_models(rep, tier, d):
     rows = []
     for name in sl:
         a, b = res[("intended", name)], res[("rows", name)]
-        rep.tlc(a, f"ClawAst slice {name} {sl[name]}: intended design, all invariants")
+        rep.tlc(a, f"ClawAst slice {name} {isl[name]}: intended design, all invariants")
         rep.tlc(b, f"ClawAst slice {name} {sl[name]}: 0.23.0 deviations (Legacy), case table emitted")
         if not a.ok:
             rep.machinery(f"ClawAst.tla (intended design, slice {name}) violates {a.violated}: the specification is wrong")
@@ -730,9 +739,8 @@ def run_models(rep, tier, d):
         for act, (dd, tt) in a.coverage.items():
             cov[act] = cov.get(act, 0) + tt
         rs = rows_of(b)
-        want = a.coverage.get("Finish", (0, 0))[0]
-        if not rs or (want and len(rs) != want):
-            rep.machinery(f"slice {name}: {len(rs)} rows emitted, {want} finished walks in the intended run")
+        if not rs or len({row_key(r) for r in rs}) != len(rs):
+            rep.machinery(f"slice {name}: {len(rs)} rows emitted, not one per (program, configuration)")
         rows += rs
     zero = [x for x in ACTIONS if not cov.get(x)]
     if zero:
